@@ -23,7 +23,10 @@ MIN_NONVACUOUS = {'quick': {'ref.value_equal': 225, 'ref.eao_point_feasible_in_r
 
 
 def run_case(rng, tier, case):
-    spec = gen.gen_lp_portfolio(rng, grid_kw={'steps': (4, 30)})
+    spec = gen.gen_lp_portfolio(rng, grid_kw={'steps': (4, 30), 'dst': bool(rng.random() < 0.2)})      # (a fifth of the horizons contains a clock change: calendar-day steps of 23 / 25 h)
+    for a_ in spec['assets']:
+        if a_['type'] == 'Storage' and rng.random() < 0.3:
+            a_['cost_store'] = gen.r2(gen.pick(rng, [0.05, 0.2]) * gen.UNIT_F[spec['grid']['unit']])      # holding costs that matter
     for t in gen.asset_types(spec):
         case.feature('type:' + t)
     g = spec['grid']
